@@ -210,6 +210,16 @@ chk(
     "generated here (their timing-dependent walk duplicates are C03's subject).",
 )
 
+chk(
+    "C19", "wdverif/props/c19.py",
+    "per-event path oracle (type, exact root prefix as given, byte-level name of a real entry) over histories with non-ASCII/undecodable names on inotify and polling observers",
+    "Exploration: paced histories over names {a, e-acute, snowman, bytes ff fe '.txt', fd} with the root spelled as str / bytes / "
+    "pathlib.Path, absolute / relative / trailing slash, recursive or not, inotify (normal, full, small reads) and polling; every "
+    "non-empty src_path/dest_path of every delivered event (primary, synthetic, parent-directory) must have the scheduled path's type "
+    "and be the root as given joined with the real relative name of an entry that existed.",
+    "Trusted: the harness's record of names (model of the tree incl. everything that ever existed in the session).",
+)
+
 _PENDING = "check not built yet in this round of work (planned in DESIGN.md section 3); not claimed until its monitor exists"
 _built = {c["id"] for c in CHECKS}
 for n in range(1, 21):
